@@ -280,7 +280,8 @@ def gen_l1(seed, idbase=0, nops=3000, nkeys=300, nb=("BucketsSize", 64), kt="byt
         r = rng.random()
         k = rng.choice(hot) if rng.random() < 0.5 else rng.choice(keys)
         if r < 0.40:
-            v = rng.choice(vids) if rng.random() < 0.97 else vids[len(pool) - 1]
+            # the largest value (up to 16 MiB with huge=True) only a few times per history
+            v = rng.choice(vids[:len(pool) - 1] + vids[len(pool):]) if rng.random() < (1 - 30.0 / max(nops, 1000)) else vids[len(pool) - 1]
             s.op("put", h=1, k=k, v=v)
         elif r < 0.62:
             s.op("del", h=1, k=k)
@@ -650,7 +651,7 @@ BUCKET_PARAMS_Q = [["BucketsSize", 1], ["BucketsSize", 2], ["BucketsSize", 3], [
 BUF_PARAMS = [["Size", 0], ["Size", 1], ["Size", 131072], ["Size", 262144], ["Size", 1048576], ["PerMille", 1000], ["Auto"]]
 
 
-def gen_params(seed, idbase=0, nops=220, buckets=("BucketsSize", 8), bufs=None, reopen=None, tag=None, kt="bytes", name="params"):
+def gen_params(seed, idbase=0, nops=220, buckets=("BucketsSize", 8), bufs=None, reopen=None, tag=None, kt="bytes", name="params", decode=True):
     """C07: one history (a function of the seed only) executed under a given configuration; enough data
     (values up to 70 KB, keys up to 60 KB) to pass several buffer chunks and force eviction."""
     rng = random.Random(seed)          # NOTE: the history depends on the seed only, never on the configuration
@@ -682,14 +683,16 @@ def gen_params(seed, idbase=0, nops=220, buckets=("BucketsSize", 8), bufs=None, 
         if i == nops // 2:
             s.op("dump", h=1)
             s.op("drop_all")
-            s.op("decode", dir="d", name="m", native=True)
+            if decode:
+                s.op("decode", dir="d", name="m", native=True)
             s.op("open_db", db=0, dir="d")
             s.op("map", h=1, db=0, name="m", kt=kt, params=reopen, **{"as": "C07.reopen"})
             s.op("dump", h=1, **{"as": "C07.reopen"})
     s.op("dump", h=1)
     s.op("iter", h=1, flavour="iter")
     s.op("new_process")
-    s.op("decode", dir="d", name="m", native=True)
+    if decode:
+        s.op("decode", dir="d", name="m", native=True)
     s.op("child_dump", dir="d", name="m", kt=kt, params=reopen, **{"as": "C07.reopen"})
     return s
 
@@ -1331,6 +1334,41 @@ def gen_inplace(seed, idbase=0, slots=None, name="inplace"):
             s.op("decode", **dec)
             for k in (ka, kb, kc):
                 s.op("del", h=1, k=k)
+    s.op("new_process")
+    s.op("decode", dir="d", name="m", native=True)
+    return s
+
+
+def gen_cyclic(seed, idbase=0, rounds=10, shape="mixed", name="cyclic"):
+    """C06: a bounded live set cycled many times: fill, delete all, refill with the sizes permuted;
+    decoded after every update so that the bound 'slots per class <= peak used + 1' is judged on a
+    gap-free history, and the file ends must stop growing."""
+    rng = random.Random(seed)
+    s = Script(idbase, design=True, name=name)
+    s.meta.update(kind="cyclic", seed=seed, shape=shape, rounds=rounds)
+    sizes = {"small": [3, 14, 15, 22, 23, 40, 100, 126],
+             "large": [1000, 1100, 1500, 2000, 2040, 3000, 1017, 1021],
+             "mixed": [0, 3, 20, 100, 400, 1100, 2000, 5000]}[shape]
+    keys = [s.key(ln) for ln in (8, 10, 11, 12, 20, 30, 100, 9)]
+    vids = [s.newval(x) for x in sizes]
+    s.op("open_db", db=0, dir="d")
+    s.op("map", h=1, db=0, name="m", kt="bytes", params={"buckets": ["BucketsSize", 2]})
+    dec = dict(dir="d", name="m", flush_h=1, native=True)
+    for r in range(rounds):
+        perm = vids[:]
+        rng.shuffle(perm)
+        order = keys[:]
+        rng.shuffle(order)
+        for k, v in zip(order, perm):
+            s.op("put", h=1, k=k, v=v)
+            s.op("decode", **dec)
+        if r % 3 == 2:
+            s.op("stats", h=1)
+        rng.shuffle(order)
+        for k in order:
+            s.op("del", h=1, k=k)
+            s.op("decode", **dec)
+    s.op("stats", h=1)
     s.op("new_process")
     s.op("decode", dir="d", name="m", native=True)
     return s
